@@ -27,6 +27,13 @@ def gen_value(rng, d, c):
     r = rng.random()
     if r < 0.03:
         return rng.pick(["L" * 300, "w" * 1100, "ab" * 1500])       # long single-line values (far below BUFSIZ)
+    if r < 0.04:
+        # values and continuation lines longer than the 8 KiB stdio buffer (compared through the string
+        # getter only; the extended getter's own BUFSIZ limit is C14's subject)
+        big = rng.pick([8185, 8191, 8192, 8200, 20000])
+        if d == " " or rng.chance(0.5):
+            return "B" * big
+        return "first\n   " + "c" * big + ("\n\tlast" if rng.chance(0.5) else "")
     if r < 0.12:
         return rng.pick([None, ""])
     if r < 0.80 or d == " ":
